@@ -146,15 +146,19 @@ PreFilter(other, rel, self) ==
 ----------------------------------------------------------------------------
 ValidIndex(l, k) == IsIntKey(k) /\ k.n >= 0 /\ k.n < Len(l.ch)
 
+StrLike(n) == (n.k = "scalar" /\ IsStrAtom(n.v)) \/ n.k \in {"xref", "prev", "import", "eval", "fstr"}
+StrOf(n) == IF n.k \in {"xref", "prev"} THEN PathStr(n.ref) ELSE n.v[2]
+
 RECURSIVE Merge(_, _, _), MergeKids(_, _, _, _)
 
 \* on_merge dispatch by the class of `self`
 Merge(self, other, path) ==
     IF ~IsComposed(self) THEN LeafRule(self, other)
-    ELSE IF IsFn(self) /\ other.k = "scalar" /\ IsStrAtom(other.v)
-    THEN \* function.py:52-60 a string names a new target
+    ELSE IF IsFn(self) /\ StrLike(other)
+    THEN \* function.py:52-60 a string names a new target (`isinstance(other, str)`: every node class derived
+         \* from ConfigScalar(str) counts - plain strings, but also !xref, !prev, !import, !eval and f-string nodes)
          IF HasPriorityOver(other, self, TRUE)
-         THEN R(Propagate(ReplaceSelfFlags([self EXCEPT !.fn = other.v[2], !.ch = <<>>], other)), "self")
+         THEN R(Propagate(ReplaceSelfFlags([self EXCEPT !.fn = StrOf(other), !.ch = <<>>], other)), "self")
          ELSE R(ReplaceOtherFlags(self, other), "self")
     ELSE IF IsFn(self) /\ IsFn(other) /\ self.fn # other.fn /\ ~HasPriorityOver(other, self, TRUE)
     THEN R(ReplaceOtherFlags(self, other), "self")                 \* function.py:67-70
